@@ -165,6 +165,13 @@ func recordC17(env *Env) {
 	}
 	if big == 1 {
 		bases = append(bases, base{"big_fa", "fasta", makeText(r, "fasta", 9000, 250), "big", 9000})
+		// sequences given as a CSV table (recognised from its content), larger than the sniffing buffer
+		var cb strings.Builder
+		cb.WriteString("id,count,sequence\n")
+		for i := 0; i < 9000; i++ {
+			fmt.Fprintf(&cb, "c%d,%d,%s\n", i, 1+i%5, randSeq17(r, 250))
+		}
+		bases = append(bases, base{"big_csv", "csv", cb.String(), "big", 9000})
 	}
 	n := 0
 	emit := func(f faultFile, data []byte) {
@@ -181,7 +188,7 @@ func recordC17(env *Env) {
 			codecs = append(codecs, "gzn", "gzm")
 		}
 		for _, codec := range codecs {
-			ext := map[string]string{"fasta": "fa", "fastq": "fq"}[b.format]
+			ext := map[string]string{"fasta": "fa", "fastq": "fq", "csv": "csv"}[b.format]
 			cdata, err := compressWithRepo(dir, b.name+"."+ext+"."+codec, b.text)
 			if err != nil {
 				panic(fmt.Sprint("compress ", codec, ": ", err))
